@@ -33,6 +33,16 @@ def parse_via(channel, raw):
     from ombott import Ombott
     from ombott.request_pkg.helpers import parse_qsl, FormsDict
     try:
+        with core.time_limit(10):
+            return _parse_via(channel, raw)
+    except core.Hang:
+        return [], 'Hang'
+
+
+def _parse_via(channel, raw):
+    from ombott import Ombott
+    from ombott.request_pkg.helpers import parse_qsl, FormsDict
+    try:
         if channel == 'qsl':
             d = FormsDict()
             parse_qsl(raw, setitem=d.__setitem__)
@@ -119,6 +129,32 @@ def run(chk):
         chk.count(1, ('pairs', raw, ch))
     chk.sample({'kind': 'pairs', 'submitted': [[k, v] for k, v in pairs][:4], 'raw': raw[:80], 'channel': ch})
     chk.sample({'kind': 'raw', 'raw': 'a=1&&b&=c&%', 'result': parse_via('qsl', 'a=1&&b&=c&%')[0]})
+    # one key spelled in several legal ways inside one string ('+' / %20, upper / lower hex, escaped letters): it is ONE key
+    from urllib.parse import quote as _q
+    for _ in range(400 if thorough else 80):
+        k = ''.join(chr(rng.choice([97, 32, 47, 233, 43, 38, 98])) for _ in range(rng.randint(1, 3)))
+        spell = [_q(k, safe='').replace('%20', '+'), _q(k, safe=''), _q(k, safe='').lower(), ''.join('%%%02X' % b for b in k.encode('utf8'))]
+        vals = ['1', '2', '3'][:rng.randint(2, 3)]
+        raw = '&'.join('%s=%s' % (rng.choice(spell), v) for v in vals)
+        ch = rng.choice(['qsl', 'query', 'forms'])
+        res, exc = parse_via(ch, raw)
+        traces.append({'raw': s2l(raw), 'pairs': [[s2l(k), s2l(v)] for v in vals], 'res': res, 'exc': exc, 'exact': True, 'ch': ch})
+        chk.count(1, ('spellings', raw, ch))
+    # a handler may use the lists it gets for repeated keys as scratch space: the next request with the same string is parsed afresh
+    for _ in range(100 if thorough else 30):
+        raw = 'tag=zeta&tag=beta&x=%d' % rng.randrange(3)
+        env = base_environ(QUERY_STRING=raw)
+        parse_via.app.request.__init__(env)
+        q1 = parse_via.app.request.query
+        for v in list(q1.values()):
+            if isinstance(v, list):
+                v.sort()
+                v.append('all')
+                v.pop(0)
+        res, exc = parse_via('query', raw)
+        traces.append({'raw': s2l(raw), 'pairs': [[s2l('tag'), s2l('zeta')], [s2l('tag'), s2l('beta')], [s2l('x'), s2l(raw[-1])]], 'res': res, 'exc': exc,
+                       'exact': True, 'ch': 'query-after-mutation'})
+        chk.count(1, ('mutated-then-again', raw))
     # the same field name in the query string and in the form body: never an exception (which value wins is not judged)
     for _ in range(300 if thorough else 60):
         k = ''.join(chr(rng.choice(CPS)) for _ in range(rng.randint(1, 3)))
